@@ -3,17 +3,19 @@
 restore) and file it under /verif/seeded/<ID>-<x>/ with patch.diff, demo.rs and meta.json.
 usage: seed_all.py [ID ...]   (default: all under _incoming)"""
 import json, os, re, shutil, subprocess, sys
-INC = "/verif/seeded/_incoming"
+INC = os.environ.get("INC", "/verif/seeded/_incoming")
+SUF = os.environ.get("SUF", "")
 ids = sys.argv[1:] or sorted(os.listdir(INC))
 NEEDS = {}
 def first_par(notes, x):
     # crude: the notes section of mutant A / B
-    m = re.split(r"(?im)^#+.*mutant\s*b.*$|^\*\*mutant b", notes)
-    part = m[0] if x == "a" else (m[1] if len(m) > 1 else notes)
+    m = re.split(r"(?im)^#+.*mutant\s*[bc].*$|^\*\*mutant [bc]", notes)
+    idx = {"a": 0, "b": 1, "c": 2}[x]
+    part = m[idx] if len(m) > idx else notes
     return part.strip()[:1800]
 for pid in ids:
     d = os.path.join(INC, pid)
-    for x in ("a", "b"):
+    for x in ("a", "b", "c"):
         patch = os.path.join(d, "mutant_%s.ported.diff" % x)
         ported = os.path.exists(patch)
         if not ported:
@@ -27,7 +29,7 @@ for pid in ids:
         rc = re.search(r"rc=(\d+)", out)
         rc = int(rc.group(1)) if rc else -1
         detail = next((l.strip() for l in out.splitlines() if l.strip().startswith("detail:")), "")
-        dst = "/verif/seeded/%s-%s" % (pid, x)
+        dst = "/verif/seeded/%s-%s%s" % (pid, SUF, x)
         os.makedirs(dst, exist_ok=True)
         shutil.copy(patch, os.path.join(dst, "patch.diff"))
         if ported:
